@@ -66,7 +66,7 @@ class C03(Check):
     # ------------------------------------------------------------------------------------------------
     def generate(self, rng, stratum, tier):
         # a third of the models carry multi-operator nodes (a readout operator behind the node's first operator)
-        spec = models.gen_net(rng, hier=rng.random() < 0.25, readouts=(0.4, 0.0) if rng.random() < 0.35 else None)
+        spec = models.gen_net(rng, hier=rng.random() < 0.25, readouts=(0.4, 0.0, 0.5, 0.6) if rng.random() < 0.35 else None)
         if stratum == 'S-complex':
             spec = models.gen_net(rng, libs=('cz',), hier=rng.random() < 0.2)     # complex-valued states
         elif rng.random() < 0.25:
